@@ -1,7 +1,6 @@
 package flap 
 
 import (
-	"gonum.org/v1/gonum/stat"
 	"errors"
 	"encoding/binary"
 	"bytes"
@@ -122,7 +121,11 @@ func (self *SmoothYs) AddY(v float64) error {
 	if len(self.ys) == self.maxYs {
 		self.ys= self.ys[1:]
 	}
-	self.ys = append(self.ys,stat.Mean(self.window,nil))
+	var sum float64
+	for _,w := range self.window {
+		sum += w
+	}
+	self.ys = append(self.ys,sum/float64(len(self.window)))
 	return nil
 }
 
